@@ -38,8 +38,8 @@ type caseT struct {
 	Pattern string   `json:"pattern,omitempty"`
 }
 
-var enumAlphabet = []string{"1", "1.5", `"a"`, `"1"`, "true", "null", `"b"`, `"1.5"`, `"a\/b"`, `"\u0041\n\""`, "1.50", "20.05", "-0.100"}
-var enumProbes = []string{"1", "1.5", `"a"`, `"1"`, "true", "null", `"b"`, "2", `"A"`, "false", `"1.5"`, "1.50", `""`, `"true"`, `"a\/b"`, `"\u0041\n\""`, "20.05", "-0.100", "-0.1", "20.5"}
+var enumAlphabet = []string{"1", "1.5", `"a"`, `"1"`, "true", "null", `"b"`, `"1.5"`, `"a\/b"`, `"\u0041\n\""`, "1.50", "20.05", "-0.100", `"\u0061\u0062"`, `"\ud83d\ude00"`}
+var enumProbes = []string{"1", "1.5", `"a"`, `"1"`, "true", "null", `"b"`, "2", `"A"`, "false", `"1.5"`, "1.50", `""`, `"true"`, `"a\/b"`, `"\u0041\n\""`, "20.05", "-0.100", "-0.1", "20.5", `"\u0061\u0062"`, `"ab"`, `"\ud83d\ude00"`, `"a\u0020b\u0020c"`}
 
 const nLayouts = 9
 
@@ -188,9 +188,16 @@ func evalEnum(cs caseT) (string, string) {
 		if a.OK != b.OK || a.Panic != "" || b.Panic != "" {
 			return "verdict-differs", fmt.Sprintf("document %s: {enum: @E} with rule %q -> %s, inline list -> %s", p, text, a, b)
 		}
+		// membership is by VALUE for strings (escapes decoded), by spelling for the other literals
+		canon := func(l string) string {
+			if strings.HasPrefix(l, `"`) {
+				return `"` + gen.StrValue(l)
+			}
+			return l
+		}
 		member := false
 		for _, it := range cs.Items {
-			member = member || it == p
+			member = member || canon(it) == canon(p)
 		}
 		if member != a.OK && p != "1.50" {
 			return "membership", fmt.Sprintf("document %s against enum %v: %s", p, cs.Items, a)
